@@ -287,9 +287,18 @@ def interval(F, t, depth=0):
     m = enum_code_max(F, t)
     if m is not None:
         return (0, m)
-    s = P.unwiden(t)
-    if s != t:
-        return interval(F, s, depth + 1)
+    if t[0] == "call" and len(t[2]) == 1 and P.is_widening_from(t[1]):
+        return interval(F, t[2][0], depth + 1)
+    if t[0] == "cast" and t[1] == "IntToInt":
+        # an `as` cast keeps the value only when it fits the target type
+        r = interval(F, t[2], depth + 1)
+        to = t[4] if len(t) > 4 else None
+        if r is None:
+            return None
+        if to in _UBITS:
+            lo_t = -(1 << _UBITS[to]) if to.startswith("i") else 0
+            return r if lo_t <= r[0] and r[1] <= (1 << _UBITS[to]) - 1 else None
+        return r if 0 <= r[0] and r[1] <= 127 else None
     s = P.strip(t, calls=False)
     if s != t:
         return interval(F, s, depth + 1)
